@@ -103,7 +103,7 @@ impl<'de> Multipart<'de> {
                     let content = {
                         let before_boundary = r.read_until(boundary);
                         let before_boundary_len = before_boundary.len();
-                        let Some((content, CRLF)) = (before_boundary_len >= CRLF.len()).then_some(unsafe {
+                        let Some((content, CRLF)) = (before_boundary_len >= CRLF.len()).then(|| unsafe {
                             use std::slice::from_raw_parts;
 
                             let ptr = before_boundary.as_ptr();
